@@ -90,6 +90,32 @@ impl<T> VVec<T> {
     pub fn clear(&mut self) {
         self.truncate(0)
     }
+    /// `Vec::remove`: removes and returns the element at `index`, shifting the rest left
+    pub fn remove(&mut self, index: usize) -> T {
+        assert!(index < self.n, "removal index out of bounds");
+        let mut out: Option<T> = None;
+        let mut i = 0;
+        while i < VCAP {
+            if i == index {
+                out = self.items[i].take();
+            } else if i > index && i < self.n {
+                let v = self.items[i].take();
+                self.items[i - 1] = v;
+            }
+            i += 1;
+        }
+        self.n -= 1;
+        out.unwrap()
+    }
+    /// `SmallVec::from_vec` / `Vec::from`: identity
+    pub fn from_vec(v: VVec<T>) -> Self {
+        v
+    }
+    /// `slice::chunks`: consecutive views of at most `size` elements
+    pub fn chunks(&self, size: usize) -> Chunks<'_, T> {
+        assert!(size != 0, "chunk size must be non-zero");
+        Chunks { v: self, pos: 0, size }
+    }
     pub fn first(&self) -> Option<&T> {
         self.get(0)
     }
@@ -148,6 +174,54 @@ impl<'a, T> Iterator for Iter<'a, T> {
             let p = self.pos;
             self.pos += 1;
             self.v.items[p].as_ref()
+        } else {
+            None
+        }
+    }
+}
+pub struct Chunks<'a, T> {
+    v: &'a VVec<T>,
+    pos: usize,
+    size: usize,
+}
+/// one chunk: elements [from, to) of the vector
+pub struct Chunk<'a, T> {
+    v: &'a VVec<T>,
+    from: usize,
+    to: usize,
+}
+impl<'a, T> Iterator for Chunks<'a, T> {
+    type Item = Chunk<'a, T>;
+    fn next(&mut self) -> Option<Chunk<'a, T>> {
+        if self.pos >= self.v.n {
+            return None;
+        }
+        let from = self.pos;
+        let to = if self.v.n - from < self.size { self.v.n } else { from + self.size };
+        self.pos = to;
+        Some(Chunk { v: self.v, from, to })
+    }
+}
+impl<'a, T> Chunk<'a, T> {
+    pub fn iter(&self) -> ChunkIter<'a, T> {
+        ChunkIter { v: self.v, pos: self.from, to: self.to }
+    }
+    pub fn len(&self) -> usize {
+        self.to - self.from
+    }
+}
+pub struct ChunkIter<'a, T> {
+    v: &'a VVec<T>,
+    pos: usize,
+    to: usize,
+}
+impl<'a, T> Iterator for ChunkIter<'a, T> {
+    type Item = &'a T;
+    fn next(&mut self) -> Option<&'a T> {
+        if self.pos < self.to {
+            let p = self.pos;
+            self.pos += 1;
+            self.v.get(p)
         } else {
             None
         }
